@@ -26,7 +26,11 @@ class InjectedBase(BaseException):
     """A failure that is not an Exception subclass (like KeyboardInterrupt raised from the callable)."""
 
 
-FAULT_TYPES = [Injected, StopIteration, InjectedBase, ZeroDivisionError, KeyError]
+class NonNote(Exception):
+    """Not raised: stands for 'the callable fails by handing over something that is not a note' (None)."""
+
+
+FAULT_TYPES = [Injected, StopIteration, InjectedBase, ZeroDivisionError, KeyError, NonNote]
 CAUGHT = (Injected, StopIteration, InjectedBase, ZeroDivisionError, KeyError, RuntimeError)
 
 
@@ -73,6 +77,13 @@ def new_pattern(rng, api, tracks, lines, attached):
     if attached:
         proj = api.Project()
         proj.new_module(api.m.Amplifier)
+        if rng.random() < 0.5:
+            # a project with the heavier module types (curves, embedded projects, samples) that has been saved before
+            for cls in rng.sample([api.m.MultiSynth, api.m.MetaModule, api.m.Sampler, api.m.WaveShaper, api.m.MultiCtl, api.m.SpectraVoice, api.m.Fmx], 3):
+                proj.new_module(cls)
+            proj.attach_pattern(p)
+            proj.read()
+            return p, proj
         proj.attach_pattern(p)
     return p, proj
 
@@ -122,6 +133,9 @@ def edit(res, rng, api, pat, proj, setter, fault_at, scribble, dup_yield, case, 
             k = counter["n"]
             counter["n"] += 1
             if fault_at is not None and k == fault_at:
+                if fault_type is NonNote:
+                    counter["n"] += 0
+                    return None
                 raise fault_type(f"cell {k}")
             if p is not pat:
                 raise AssertionError("fn called with a different pattern")
@@ -164,6 +178,10 @@ def edit(res, rng, api, pat, proj, setter, fault_at, scribble, dup_yield, case, 
                                     expected[l_][t_] = n2.raw_data
                     expected[s_ln][s_tr] = n2.raw_data
                 if fault_at is not None and counter["n"] == fault_at:
+                    if fault_type is NonNote:
+                        counter["n"] += 1
+                        yield ln, tr, None
+                        continue
                     raise fault_type(f"yield {counter['n']}")
                 counter["n"] += 1
                 if scroll:
@@ -176,7 +194,7 @@ def edit(res, rng, api, pat, proj, setter, fault_at, scribble, dup_yield, case, 
                     note = make_note(rng, api)
                     expected[ln][tr] = note.raw_data
                 yield ln, tr, note
-            if fault_at is not None and counter["n"] == fault_at:
+            if fault_at is not None and counter["n"] == fault_at and fault_type is not NonNote:
                 raise fault_type("after last yield")
         call = lambda: pat.set_via_gen(gen)
 
@@ -186,9 +204,12 @@ def edit(res, rng, api, pat, proj, setter, fault_at, scribble, dup_yield, case, 
     except CAUGHT as e:
         raised = e
     except Exception as e:
-        res.violation(f"C19:unexpected-exception:{setter}", f"{setter} raised {e!r}", case)
-        return False
-    if raised is None and fault_at is not None and counter["n"] > fault_at:
+        if fault_type is NonNote and fault_at is not None:
+            raised = e                      # however the library reports the missing note: the edit did not complete
+        else:
+            res.violation(f"C19:unexpected-exception:{setter}", f"{setter} raised {e!r}", case)
+            return False
+    if raised is None and fault_at is not None and counter["n"] > fault_at and fault_type is not NonNote:
         # the callable DID fail (the fault point was reached) but the setter returned normally: the failure was swallowed
         res.count("edits_failed_injected")
         if pat.raw_data != before_raw:
